@@ -69,6 +69,10 @@ def make_case(prop, seed, i, tier):
     spec = G.gen_random(rng, G.profile(facility_rich=rng.random() < 0.4, max_time=50))
     if rng.random() < 0.12:
         G.add_idle_parts(rng, spec)
+    elif rng.random() < 0.1:
+        spec = G.gen_scale(rng, rng.choice(["long", "long", "many_resources", "one_component"]))    # logs of hundreds of steps, many objects
+        if spec["scale"] == "long" and rng.random() < 0.5:
+            spec["sim"]["max_time"] = rng.choice([257, 300, 420])      # stopped by max_time: logs that end in READY / WORKING
     return dict(prop=prop, i=i, kind="simlogs", spec=spec, rseed=rng.randrange(10 ** 9))
 
 
@@ -88,10 +92,12 @@ def random_part(case, res):
         kind = rng.choice(sorted(CLASSES))
         mk, states, targets = CLASSES[kind]
         n = rng.randint(0, 60)
+        if rng.random() < 0.08:
+            n = rng.choice([255, 256, 257, 300, 600, 1500])      # long logs (runs of hundreds of steps)
         # long runs and frequent changes both
         seq = []
         while len(seq) < n:
-            seq.extend([rng.choice(states)] * rng.randint(1, 6))
+            seq.extend([rng.choice(states)] * rng.randint(1, 6 if n < 255 else rng.choice([6, 40, 200])))
         seq = seq[:n]
         if rng.random() < 0.15:
             # equal values, other objects: plain ints (a log taken over without conversion) or the sibling enum
